@@ -20,6 +20,9 @@ import (
 var ConnectionTimeout = 5 * time.Minute          // ConnectionTimeout specifies that connections will timeout 2 minutes after we've seen the last contact from the user
 var OldConnectionTimeout = 6 * ConnectionTimeout // Old connections will also timeout after a certain time
 
+// MaxDownstreamFragmentSize is the largest fragment a client may ask for: no DNS message is longer than 64 KiB
+const MaxDownstreamFragmentSize = 0xFFFF
+
 // ServerDnsListener will simulate connections over a DNS server request/response loop
 type ServerDnsListener struct {
 	Communicator      ServerCommunicator   // Communictor does IO. This allows us to abstract away the connection logic
@@ -301,6 +304,8 @@ func (s *ServerDnsListener) setOptionsRequest(v *commands.SetOptionsRequest, m *
 	user, err := s.validateAndGetUser(v.UserId, remoteAddr)
 	if err != nil {
 		resp.Err = err
+	} else if v.DownstreamFragmentSize != nil && (*v.DownstreamFragmentSize == 0 || *v.DownstreamFragmentSize > MaxDownstreamFragmentSize) {
+		resp.Err = commands.BadFrag
 	} else if v.Closed != nil && *v.Closed == true {
 		log.Debugf("Client-initiated closing of the connection.")
 		_ = s.closeConnection(user)
@@ -344,6 +349,8 @@ func (s *ServerDnsListener) testDownstreamFragmentSize(v *commands.TestDownstrea
 	u, err := s.validateAndGetUser(v.UserId, remoteAddr)
 	if err != nil {
 		resp.Err = err
+	} else if v.FragmentSize > MaxDownstreamFragmentSize {
+		resp.Err = commands.BadFrag
 	} else {
 		resp.Data = make([]byte, v.FragmentSize)
 		v := byte(107)
